@@ -18,7 +18,7 @@ pub fn check(tier: Tier) -> Check {
         also_rel: false,
         property: "C12",
         level: "exploration",
-        rule: "all request kinds (publish QoS 0/1/2 with payload 0..max and topic 1..3 bytes, subscribe / unsubscribe with 1-2 filters and 0-1 user property, ping, disconnect with / without reason string) x M in {L-1, L, L+1, 1, 2^32-1, absent} x Receive Maximum in {1, absent}, L computed by the reference encoder; followed by a QoS 1 publish, its PUBACK, an accepted subscribe, and an inbound PUBLISH naming the rejected subscription's would-be identifier; non-trivial = a request was refused for size".into(),
+        rule: "all request kinds (publish QoS 0/1/2 with payload 0..max and topic 1..3 bytes, subscribe / unsubscribe with 1-2 filters and 0-1 user property, ping, disconnect with / without reason string) x M in {L-1, L, L+1, 1, 2^32-1, absent} x Receive Maximum in {1, absent} x CONNACK {bare, carrying six other properties around them}, L computed by the reference encoder; followed by a QoS 1 publish, its PUBACK, an accepted subscribe, and an inbound PUBLISH naming the rejected subscription's would-be identifier; non-trivial = a request was refused for size".into(),
         assumptions: vec![],
         parts,
     }
@@ -85,12 +85,24 @@ pub fn scenario(name: &str, params: &Value) -> Scenario {
             _ => None,
         };
         let r1 = chz.choose(2) == 1;
+        let rich = chz.choose(2) == 1;
         let mut props = vec![];
+        if rich {
+            // M must be picked up whatever else the CONNACK carries, before and after it
+            props.push(Prop::u32(P_SESSION_EXPIRY, 30));
+            props.push(Prop::u16(P_TOPIC_ALIAS_MAXIMUM, 4));
+            props.push(Prop::str(P_ASSIGNED_CLIENT_ID, "cid"));
+        }
         if let Some(m) = m {
             props.push(Prop::u32(P_MAXIMUM_PACKET_SIZE, m));
         }
         if r1 {
             props.push(Prop::u16(P_RECEIVE_MAXIMUM, 1));
+        }
+        if rich {
+            props.push(Prop::u16(P_SERVER_KEEP_ALIVE, 9));
+            props.push(Prop::user("k", "v"));
+            props.push(Prop::byte(P_RETAIN_AVAILABLE, 0));
         }
         sys.bring_up(props);
         sys.events.push(format!("L={} M={:?} R1={}", l, m, r1));
